@@ -480,6 +480,12 @@ SYN_PATHS = [("/Event:TMcEvent/m_mdcMcHitCol", "TMdcMc", False), ("/Event:TDstEv
              ("/Event:TDigiEvent/m_cgemDigiCol", "TCgemDigi", True), ("/Event:TDigiEvent/m_lumiDigiCol", "TLumiDigi", True)]
 
 
+# ... and every other registered object collection (class name from the pinned table above), so that each entry of the working tree's
+# branch -> class table is used at least once with a stream of ITS class only (no other class has a streamer in that synthetic file)
+SYN_PATHS += [(p_, c_, False) for p_, c_ in sorted(SPEC_BRANCHES.items())
+              if c_ not in ("map<int,int>", "TRecCgemCluster") and p_ not in {q for q, _, _ in SYN_PATHS}]
+
+
 def gen_synthetic(ck, n_cases):
     rng = ck.rng
     g = Syn(rng)
@@ -644,7 +650,7 @@ def run(ck: vlib.Check):
     if rootdrv is None:
         ck.tie_broken("correspondence", "native-build root_io.hh", err)
     # ---- synthetic streams: Gallina encoder in vm_compute
-    n_syn = 24 if quick else 150
+    n_syn = (len(SYN_PATHS) + 8) if quick else 150
     syn_cases, syn_coq = gen_synthetic(ck, n_syn)
     cg_cases, cg_coq = gen_cgem(ck, 6 if quick else 30)
     v = ck.props / "Cases.v"
